@@ -76,6 +76,7 @@ var owned = map[string][]string{
 	"C07": {"range-", "panic"}, // range-visitor-stuck included
 	"C08": {"size", "size-sweep-incomplete", "size-clear-survivor", "panic"},
 	"C13": {"deadlock", "livelock", "panic"},
+	"C09": {"expiry-default", "panic"},
 	"C16": {"read-", "lin", "panic"},
 	"C14": {"race", "payload", "panic"},
 }
@@ -103,6 +104,8 @@ func wantFor(prop string) Want {
 		return Want{Size: true}
 	case "C13":
 		return Want{}
+	case "C09":
+		return Want{Defaults: true}
 	case "C16":
 		return Want{ReadBound: true, Lin: true}
 	}
